@@ -213,7 +213,7 @@ func c15run(env *hs.Env, s c15session, yield func()) (r c15result, cl *hs.Client
 
 func c15opts(custom bool) []wire.OptionFn {
 	if !custom {
-		return nil
+		return []wire.OptionFn{wire.GlobalParameters(wire.Parameters{"application_name": "verif-c15", "DateStyle": "ISO", "session_authorization": "nobody"}), wire.Version("15.0-verif")}
 	}
 	return []wire.OptionFn{wire.ExtendTypes(func(m *pgtype.Map) {
 		m.RegisterType(&pgtype.Type{Name: "verifcustom", OID: c15customOID, Codec: pgtype.TextCodec{}})
